@@ -6,9 +6,9 @@ what="${*:-quick mutants refactors seeds}"
 props="C01 C02 C03 C04 C05 C06 C07 C08 C09 C10 C11 C12 C13 C14 C16 C17 C18 C19 C20"
 for w in $what; do
  case $w in
- quick) for p in $props; do ./bin/pongocheck -property $p 2>&1 | grep "VIOLATED\|UNDECIDED\|PANIC\|ERROR\|tier=" | cut -c1-200; done;;
+ quick) for p in $props; do ./bin/pongocheck -property $p 2>&1 | grep "VIOLATED\|UNDECIDED\|PANIC\|ERROR\|tier=\|controls" | cut -c1-200; done;;
  mutants) for p in $props; do echo "== $p"; ./bin/pongocheck -property $p -tier thorough 2>&1 | grep "self-valid\|mutant \|VIOLATION" | cut -c1-240; done;;
- refactors) for d in refactors/*/; do n=$(basename $d); python3 tools/refactor_eval.py $n $d 2>&1 | tail -6; done;;
- seeds) python3 tools/seed_detect.py --all 2>&1 | tail -45;;
+ refactors) python3 tools/refactor_eval.py --all 2>&1 | grep -v "^WARNING";;
+ seeds) python3 tools/seed_detect.py 2>&1 | grep -v "^WARNING" | cut -c1-260;;
  esac
 done
